@@ -32,7 +32,10 @@ FT == << [kind |-> "leaf", diff |-> TRUE,  t |-> <<>>, w |-> <<>>],             
          [kind |-> "leaf", diff |-> FALSE, t |-> <<>>, w |-> <<>>],              \* 5  N3  convex indicator
          [kind |-> "sum",  diff |-> FALSE, t |-> <<1, 3>>, w |-> <<One, Two>>],  \* 6  S = D1 + 2 N1
          [kind |-> "sum",  diff |-> TRUE,  t |-> <<1, 2>>, w |-> <<One, Half>>], \* 7  M = D1 + D2/2
-         [kind |-> "sum",  diff |-> FALSE, t |-> <<4, 5>>, w |-> <<One, Two>>] >> \* 8 K = N2 + 2 N3
+         [kind |-> "sum",  diff |-> FALSE, t |-> <<4, 5>>, w |-> <<One, Two>>],  \* 8 K = N2 + 2 N3
+         \* 9  Zc = (D1 + N1) - N1: the stored weights are {D1: 1, N1: 0}; add_point prunes the cancelled term, so a
+         \*    step that registers its sample through add_point (prox, line search) treats Zc as the one-term sum 1*D1
+         [kind |-> "sum",  diff |-> FALSE, t |-> <<1>>, w |-> <<One>>] >>
 NF == Len(FT)
 \* ------------------------------------------------------------------------------------------------ state
 \* st = [dp, de : dimensions of the normal forms;  np, ne : number of leaf points / expressions so far;
@@ -230,7 +233,10 @@ OnlyTouches(pre, post, F) ==
 SumConsistent(pre, post, f) ==
   FT[f].kind = "leaf" \/
   \A s \in Range(NewS(pre, post, f)) :
-     \E s1 \in Range(post.S[FT[f].t[1]]), s2 \in Range(post.S[FT[f].t[2]]) :
+     IF NTerms(f) = 1
+     THEN \E s1 \in Range(post.S[FT[f].t[1]]) :
+            s1.x = s.x /\ VScale(FT[f].w[1], s1.g) = s.g /\ EScale(FT[f].w[1], s1.f) = s.f
+     ELSE \E s1 \in Range(post.S[FT[f].t[1]]), s2 \in Range(post.S[FT[f].t[2]]) :
         /\ s1.x = s.x /\ s2.x = s.x
         /\ VAdd(VScale(FT[f].w[1], s1.g), VScale(FT[f].w[2], s2.g)) = s.g
         /\ EAdd(EScale(FT[f].w[1], s1.f), EScale(FT[f].w[2], s2.f)) = s.f
@@ -325,7 +331,7 @@ DirLists(ls) == {<<>>, <<"L2">>, <<"L2", "CB">>} \cup (IF ls = <<>> THEN {} ELSE
 Call(s, o, f, h, a, b, ds, g, e) == [step |-> s, opt |-> o, f |-> f, h |-> h, a |-> a, b |-> b, dirs |-> ds,
                                      gn |-> g[1], gd |-> g[2], en |-> e[1], ed |-> e[2]]
 Calls(ls) ==
-       {Call("proximal_step", "-", f, 0, a, "-", <<>>, g, <<0, 1>>) : f \in Generic, a \in Starts(ls), g \in Gammas}
+       {Call("proximal_step", "-", f, 0, a, "-", <<>>, g, <<0, 1>>) : f \in Generic \cup {9}, a \in Starts(ls), g \in Gammas}
   \cup {Call("inexact_gradient_step", o, f, 0, a, "-", <<>>, g, e) :
            o \in {"absolute", "relative"}, f \in Generic, a \in Starts(ls), g \in Gammas, e \in Epsilons}
   \cup {Call("inexact_proximal_step", o, f, 0, a, "-", <<>>, g, <<0, 1>>) :
